@@ -9,7 +9,6 @@ import (
 	"io"
 	"math/rand"
 	"os"
-	"path/filepath"
 	"runtime"
 	"sort"
 	"strings"
@@ -326,8 +325,6 @@ func runIndexHistory(root string, job jobSpec) *histResult {
 	recs = append(recs, extra)
 
 	// final audit at quiescence
-	arng := rand.New(rand.NewSource(1))
-	_ = arng
 	var audit []ixRec
 	for _, e := range cat {
 		audit = append(audit, ixGetMeta(ctx, x, clk, auditSlot, "audit-GetBlobMeta", e.name, e.b, e.typ, report)...)
@@ -561,5 +558,3 @@ func ixClaims(ctx context.Context, x *hw.Idx, w *ixWorld, clk *clock, client int
 	}
 	return []ixRec{{fmt.Sprintf("attr/%d", i), kop{Client: client, Kind: kind, W: 5, V: len(cls), Call: call, Ret: ret}}}
 }
-
-var _ = filepath.Join
